@@ -356,6 +356,7 @@ class CSSPageRule(cssrule.CSSRuleRules):
                 self.style = newStyle
                 for r in self._cssRules:
                     # the replaced rules are not part of this rule anymore
+                    r._parent = None
                     r._parentRule = None
                 self.cssRules = cssutils.css.CSSRuleList()
                 for r in cssRules:
